@@ -625,7 +625,11 @@ fn usage(ctx: &mut Ctx, plan: &Plan, drv: &mut Built<WatchHal>, all: &mut Vec<Te
             let mut toks = vec![];
             if let Ok(Ok(())) = r {
                 for k in 0..*nx { if let Ok(Ok(t)) = catch_unwind(AssertUnwindSafe(|| s.pcm_xfer_nb(0, &[k as u8; 32]))) { toks.push(t); } }
+                // poll before the device has completed anything (NotReady), and after the first completions for the
+                // transfer submitted last (not the next one in the used ring): a refused poll releases nothing
+                if let Some(t) = toks.last() { let _ = catch_unwind(AssertUnwindSafe(|| s.pcm_xfer_ok(*t))); ctx.tr.note("usage_sound_early_poll"); }
                 if let Some((_, qi)) = set_queues().into_iter().find(|(i, _)| *i == 2) { for _ in 0..*ndone { serve_one(2, &qi, None); } }
+                if toks.len() > *ndone && *ndone > 0 { if let Some(t) = toks.last() { let _ = catch_unwind(AssertUnwindSafe(|| s.pcm_xfer_ok(*t))); ctx.tr.note("usage_sound_out_of_order_poll"); } }
                 for t in toks.iter().take((*nack).min(*ndone)) { let _ = catch_unwind(AssertUnwindSafe(|| s.pcm_xfer_ok(*t))); }
                 ctx.tr.note("usage_sound_transfers");
             } else { ctx.tr.note("usage_sound_setup_failed"); }
